@@ -4,6 +4,7 @@ import (
 	"encoding/json"
 	"fmt"
 	"sort"
+	"strings"
 )
 
 // Safety is the shared invariant monitor over a recorded history. Every
@@ -70,6 +71,7 @@ type Safety struct {
 	confHist     map[string][]*ConfInfo
 	confTimes    map[string][]confAt
 	pendingLease []pendingLease
+	tornEnts     map[string][]EntryInfo
 	grants       map[string]map[string]bool // "candidate/term" -> voters whose granted real vote reached it
 	pendingElect []electRec
 
@@ -167,7 +169,7 @@ func NewSafety() *Safety {
 		fsmSeq: map[int][]uint64{}, fsmRestored: map[int]bool{},
 		leaderByTerm: map[uint64]string{}, leaderSeq: map[uint64]int{}, rpcLeaderByTerm: map[uint64]string{}, ledFirst: map[string]bool{},
 		votes: map[string]map[uint64]string{}, persisted: map[string][2]any{}, maxTerm: map[string]uint64{}, termAtDel: map[int]uint64{}, lastAtDel: map[int][2]uint64{},
-		sets: map[string][]setRec{}, delSeq: map[int]int{}, replies: map[string][]replyRec{}, confs: map[string]*ConfInfo{}, confHist: map[string][]*ConfInfo{}, confTimes: map[string][]confAt{}, grants: map[string]map[string]bool{},
+		sets: map[string][]setRec{}, delSeq: map[int]int{}, replies: map[string][]replyRec{}, confs: map[string]*ConfInfo{}, confHist: map[string][]*ConfInfo{}, confTimes: map[string][]confAt{}, tornEnts: map[string][]EntryInfo{}, grants: map[string]map[string]bool{},
 		rvReal: map[string]int{}, rvPre: map[string]int{}, incStatus: map[string]StatusInfo{},
 		openRecv: map[string]*recvFile{}, mixedFiles: map[int]string{}, inflightIS: map[string]map[int]*MsgInfo{},
 		lastStatus: map[string]StatusInfo{}, memberPending: map[int]*memberReq{}, memberAwaitAppend: map[string]int{},
@@ -341,6 +343,9 @@ func (s *Safety) On(e *Event) []Violation {
 		s.logMatching(e.Seq)
 		s.judgePendingLease()
 	case "fault":
+		if e.Fault.What == "crash" && e.Storage != nil && len(e.Storage.Ents) > 0 && strings.Contains(e.Fault.Arg, "torn tail") {
+			s.tornEnts[e.Node] = e.Storage.Ents // the process died inside this append: a prefix of it may have reached the disk
+		}
 		if e.Fault.What == "start" {
 			// a restart of the same instance also starts a new life: commit/applied index are volatile
 			delete(s.incStatus, fmt.Sprintf("%s/%d", e.Node, e.Inc))
@@ -410,6 +415,22 @@ func (s *Safety) onStorage(e *Event) {
 		if !ok {
 			return
 		}
+		if st.Ctx == "restore" {
+			// a restart completes an interrupted installation: the suffix may only be kept if the entry at
+			// the snapshot's label is the snapshot's last entry - otherwise the log has nothing to do with
+			// the snapshot (a deposed leader's tail) and the node would not be what a node with the full log is
+			for k := len(s.snapFiles) - 1; k >= 0; k-- {
+				if f := s.snapFiles[k]; f.Node == e.Node && f.Snap != nil && f.Snap.Index == st.Index {
+					if f.Snap.Term != en.T {
+						s.v("C11", "C11/restart-kept-conflicting-suffix", fmt.Sprintf("%s restarted over a snapshot labelled (%d,t%d) and kept its log from that index on although its own entry %d has term %d", e.Node, f.Snap.Index, f.Snap.Term, st.Index, en.T), e.Seq)
+						l.ents = append([]EntryInfo(nil), l.ents[st.Index-l.bi:]...)
+						l.bi, l.bt = st.Index, en.T
+						return
+					}
+					break
+				}
+			}
+		}
 		// only applied, hence committed, entries are compacted away: remember them as committed
 		// before they disappear from the stored log (status sampling may never have seen them)
 		for j := l.bi + 1; j <= st.Index; j++ {
@@ -444,13 +465,21 @@ func (s *Safety) onStorage(e *Event) {
 			// every entry the node had stored must be recovered unchanged (extra entries cannot
 			// occur: die() waits for in-flight storage calls)
 			bad := ""
+			want := l.ents
+			if torn := s.tornEnts[e.Node]; torn != nil {
+				// died inside an append: the entries of that call that were written completely are there, too
+				if extra := len(st.Ents) - len(l.ents); extra > 0 && extra <= len(torn) {
+					want = append(append([]EntryInfo(nil), l.ents...), torn[:extra]...)
+				}
+				delete(s.tornEnts, e.Node)
+			}
 			if st.Index != l.bi {
 				bad = fmt.Sprintf("boundary %d, had %d", st.Index, l.bi)
-			} else if len(st.Ents) != len(l.ents) {
+			} else if len(st.Ents) != len(want) {
 				bad = fmt.Sprintf("%d entries, had stored %d", len(st.Ents), len(l.ents))
 			} else {
 				for i := range st.Ents {
-					if st.Ents[i] != l.ents[i] {
+					if st.Ents[i] != want[i] {
 						bad = fmt.Sprintf("entry %d differs", st.Ents[i].I)
 						break
 					}
